@@ -5,6 +5,7 @@ import (
 
 	"github.com/nspcc-dev/neo-go/pkg/core/native/noderoles"
 	"github.com/nspcc-dev/neo-go/pkg/crypto/keys"
+	"github.com/nspcc-dev/neo-go/pkg/smartcontract"
 	"github.com/nspcc-dev/neo-go/pkg/util"
 )
 
@@ -140,6 +141,77 @@ func (w *World) DeployFS(set Set, o FSOptions) error {
 				return err
 			}
 		}
+	}
+	return nil
+}
+
+// Reelect replaces the whole committee by the given keys through the native NEO
+// election: every new key registers as a candidate, a voter holding a fifth of
+// the voted NEO supply votes for each of them, and blocks are added until
+// getCommittee answers with the new keys. The signers of the world (Alphabet,
+// Majority, Members, Privs, Pubs) then are the new committee's; the former
+// ones are kept in FormerAlphabet / FormerMajority. The consensus node(s) that
+// stamp the blocks stay the genesis ones (blocks are not verified).
+func (w *World) Reelect(newPrivs []*keys.PrivateKey) error {
+	if len(newPrivs) != w.N {
+		return fmt.Errorf("reelect: %d keys for a committee of %d", len(newPrivs), w.N)
+	}
+	per := int64(30_000_000 / len(newPrivs))
+	for i, k := range newPrivs {
+		acc := Single(k)
+		if err := w.FundGAS(acc.ScriptHash(), 1100_0000_0000); err != nil {
+			return err
+		}
+		fee := w.SysFee
+		w.SysFee = 1010_0000_0000 // the registration price (1000 GAS) is burnt as system fee
+		r := w.Invoke([]SignerSpec{G(acc)}, w.NEO, "registerCandidate", k.PublicKey().Bytes())
+		w.SysFee = fee
+		if !r.Halted() || !Bool(r.Stack[0]) {
+			return fmt.Errorf("registerCandidate %d: %s %s", i, r.State, r.Fault)
+		}
+		voter := Single(Key(w.Opt.Seed, w.Opt.Batch, "voter", w.elections*100+i))
+		if err := w.FundNEO(voter.ScriptHash(), per); err != nil {
+			return err
+		}
+		if r := w.Invoke([]SignerSpec{G(voter)}, w.NEO, "vote", voter.ScriptHash(), k.PublicKey().Bytes()); !r.Halted() || !Bool(r.Stack[0]) {
+			return fmt.Errorf("vote %d: %s %s", i, r.State, r.Fault)
+		}
+	}
+	w.elections++
+	want := map[string]bool{}
+	for _, k := range newPrivs {
+		want[string(k.PublicKey().Bytes())] = true
+	}
+	elected := func() bool {
+		r := w.Read(w.NEO, "getCommittee")
+		if !r.OK() {
+			return false
+		}
+		cs := Arr(r.Top())
+		if len(cs) != len(newPrivs) {
+			return false
+		}
+		for _, c := range cs {
+			if !want[string(Bytes(c))] {
+				return false
+			}
+		}
+		return true
+	}
+	for i := 0; i < 3*w.N+3 && !elected(); i++ {
+		w.EmptyBlocks(1)
+	}
+	if !elected() {
+		return fmt.Errorf("reelect: the committee did not change")
+	}
+	w.FormerAlphabet, w.FormerMajority = w.Alphabet, w.Majority
+	w.Privs = newPrivs
+	w.Pubs = Pubs(newPrivs)
+	w.Majority = Multi(w.Privs, smartcontract.GetMajorityHonestNodeCount(w.N))
+	w.Alphabet = Multi(w.Privs, w.N*2/3+1)
+	w.Members = nil
+	for _, p := range w.Privs {
+		w.Members = append(w.Members, Single(p))
 	}
 	return nil
 }
